@@ -3,5 +3,6 @@ CONSTANTS
   U = 2
   R = 4
   MaxSteps = 1000
+  MaxRestarts = 1000
 INVARIANTS Progress ExactlyOnce
 CHECK_DEADLOCK FALSE
